@@ -208,7 +208,9 @@ func (w *hookWorld) judge(col *evid.Collector, c hookCase) error {
 		if err != nil {
 			return err
 		}
-		if err := st2.Commit(w.repo, "staged", false, false); err != nil {
+		// recorded in the log like StagePolicy does: the staged, not yet
+		// applied state is then the latest state of the staging reference
+		if err := st2.Commit(w.repo, "staged", true, false); err != nil {
 			return fmt.Errorf("stage: %w", err)
 		}
 	}
@@ -344,7 +346,7 @@ func checkHookSelection(t *testing.T, col *evid.Collector, offset int) {
 			col.Fail("hooks: " + err.Error())
 			return
 		}
-		if i%4 == 1 {
+		if i%2 == 1 {
 			c.Staged = complement(c.Hooks)
 		}
 		if err := w.judge(col, c); err != nil {
